@@ -10,7 +10,7 @@ EXPLANATION = (
     "size, tool-ignore, gitignore, not-a-symlink; glob => include, size, exclude, tool-ignore; explicit => size, and exclusions "
     "only under force_exclude. Also: os.walk without followlinks, pruning assigns dirnames[:] of the walk and consults "
     "exclude/tool-ignore/gitignore, every append is guarded by the seen-set on the resolved path and followed by the sort on "
-    "all paths to the return, size limit 0 short-circuits and the comparison is strict. Completeness on a concrete tree and "
+    "all paths to the return, size limit 0 short-circuits and the comparison is strict; every memoising store of the resolver is keyed by all inputs its value depends on (slices of key and value). Completeness on a concrete tree and "
     "pathspec's matching semantics are not decided."
 )
 
@@ -21,5 +21,7 @@ def run(ctx: Ctx) -> None:
     ctx.rule("R-RESOLVE-V3", "directory pruning is in place (dirnames[:]) and consults exclude / tool-ignore / gitignore")
     ctx.rule("R-RESOLVE-V4", "seen-set on resolved paths before every append; sort after the last append")
     ctx.rule("R-RESOLVE-V5", "size limit: 0 disables, strict comparison")
+    ctx.rule("R-RESOLVE-cache", "a memoised value depends only on what its key is computed from")
     ctx.run(resolve.check_resolve)
+    ctx.run(resolve.check_cache_keys)
     ctx.assume("pathlib / os.walk semantics; pathspec matches gitignore-syntax patterns correctly")
